@@ -17,5 +17,11 @@ open Pcore.LoaderSeq
 #print axioms C12_case_ops
 #print axioms C12_wf_run
 #print axioms C12_discover
+#print axioms C12_ts_load
+#print axioms C12_ts_has
+#print axioms C12_ts_lookups_pure
+#print axioms C12_ts_define
+#print axioms C12_ts_other
+#print axioms C12_ts_member_shadows
 #print axioms C12_assertion_fault_before_fix
 #print axioms C12_discover_placeholder_before_fix
